@@ -1,4 +1,5 @@
 import Driver.OpsCore
+import TakVerif.Impl.Symmetry
 /-! Driver ops of the search properties (C04 alpha-beta part, C05, C16). -/
 namespace Driver
 open Tak Codec Search
@@ -42,7 +43,14 @@ def parseCfg (tok : String) : Search.Cfg × String :=
 def evalOf (name : String) : Pos → Int :=
   if name == "m" then Search.evalMat else Search.evalWinner
 
-def gameOf (st : St) (ev : String) : Game Pos Move := takGame st.basis (evalOf ev)
+/-- hashes of the symmetric images as `pvSearch` puts them into its de-duplication cache:
+`syms, _ := symmetry.Symmetries(child); for _, ps := range syms { cache[ps.P.Hash()] }` (an error gives no images) -/
+def symHashesOf (basis : Array W) (p : Pos) : List Search.H :=
+  match Tak.symmetries basis p with
+  | .ok l => l.map (fun x => x.1.hashOf)
+  | .error _ => []
+
+def gameOf (st : St) (ev : String) : Game Pos Move := takGame st.basis (evalOf ev) (symHashesOf st.basis)
 
 /-- cancel oracle of the harness: the flag is set inside the k-th leaf evaluation (k = 0: never) -/
 def oracleOf (k : Nat) : Oracle Move :=
@@ -202,6 +210,8 @@ def handleSearch : Handler := fun st op args =>
         else "ok"
       | _, _, _ => "bad-args")
   | "anq", _ => some (st, "ok")
+  -- race-detector run of the repository's cancel tests (supporting evidence only; no model side)
+  | "racecheck", _ => some (st, "ok")
   | "eqclaim", [a, b] => some (st, if a == b then "1" else "0")
   -- claims of C04 (the harness prints what the real engine did; the model side is the claim itself)
   | "c04", _ => some (st, "legal pvok")
